@@ -58,6 +58,8 @@ macro_rules! svop_spellings {
 }
 
 macro_rules! impl_fv {
+    (@build Vec3A, $x:ident, $y:ident, $z:ident) => { Vec3A::from_vec4(Vec4::new($x, $y, $z, poison())) };
+    (@build $V:ident, $($f:ident),+) => { $V::new($($f),+) };
     ($V:ident, $S:ident, $N:literal, $M:ident, [$($f:ident),+]) => {
         impl FV for $V {
             type S = $S;
@@ -67,7 +69,7 @@ macro_rules! impl_fv {
                 let mut i = 0;
                 $( let $f = l[i]; i += 1; )+
                 let _ = i;
-                $V::new($($f),+)
+                impl_fv!(@build $V, $($f),+)
             }
             fn lanes(&self) -> Vec<$S> {
                 self.to_array().to_vec()
@@ -213,6 +215,13 @@ macro_rules! impl_fv {
     };
 }
 
+/// hidden 4th lane of the Vec3A operands of every replayed case: rotates through NaN, +inf, a huge negative and an ordinary value,
+/// so that an operation that lets the padding lane take part (a reduction over 4 lanes, a 4-lane mask) gives a wrong visible result
+pub fn poison() -> f32 {
+    use std::sync::atomic::{AtomicUsize, Ordering};
+    static K: AtomicUsize = AtomicUsize::new(0);
+    [f32::NAN, f32::INFINITY, -1.0e30, 0.5, f32::NEG_INFINITY, -0.0][K.fetch_add(1, Ordering::Relaxed) % 6]
+}
 impl_fv!(Vec2, f32, 2, BVec2, [x, y]);
 impl_fv!(Vec3, f32, 3, BVec3, [x, y, z]);
 impl_fv!(Vec3A, f32, 3, BVec3A, [x, y, z]);
